@@ -151,3 +151,17 @@ Theorem C15_collapse_midpoint_topology `{Sig} : forall E n ks l c w cnt vid w' c
   (forall x, unused w' x = if (x =? l) || (x =? a) || (x =? b) || (x =? r) || (x =? c0) || (x =? d) then true else unused w x).
 Proof. exact collapse_midpoint_topology. Qed.
 Print Assumptions C15_collapse_midpoint_topology.
+
+(** ... and the map stays well formed: derived from the exact images and flags above, clause by clause. *)
+From HC Require Import Map2.Wf2.
+Theorem C15_collapse_midpoint_keeps_wf2 `{Sig} : forall E n ks l c w cnt vid w' cnt',
+  let a := beta w 1 l in let b := beta w 0 l in let r := beta w 2 l in
+  let c0 := beta w 1 r in let d := beta w 0 r in
+  let A2 := beta w 2 a in let B2 := beta w 2 b in let C2 := beta w 2 c0 in let D2 := beta w 2 d in
+  wf2 n w -> l < n ->
+  NoDup [l; a; b; r; c0; d; A2; B2; C2; D2] -> ~ In 0 [l; a; b; r; c0; d; A2; B2; C2; D2] ->
+  beta w 1 a = b -> beta w 1 c0 = d ->
+  run E (collapse_edge_to_midpoint n ks b l a d r c0) c w cnt = (Done vid, w', cnt') ->
+  wf2 n w'.
+Proof. exact collapse_midpoint_wf. Qed.
+Print Assumptions C15_collapse_midpoint_keeps_wf2.
